@@ -47,7 +47,7 @@ def uniq_names(draw, pool, n):
 
 @st.composite
 def schemas(draw, min_classes=2, max_classes=4, max_assocs=4, shapes=('simple', 'reflexive', 'assoc', 'subsuper'),
-            key_types=KEY_TYPES, multi_key=True, typecase=False, max_extra_attrs=3):
+            key_types=KEY_TYPES, multi_key=True, typecase=False, max_extra_attrs=3, shared_refs=False):
     ncls = draw(st.integers(min_classes, max_classes))
     cnames = uniq_names(draw, CLASS_NAMES, ncls + 3)
     classes = []
@@ -101,7 +101,19 @@ def schemas(draw, min_classes=2, max_classes=4, max_assocs=4, shapes=('simple', 
         names = [c['name'] for c in classes]
         if shape == 'simple' and len(names) >= 2:
             src, tgt = draw(st.permutations(names))[:2]
-            keys = add_refs(src, tgt, 'r%d' % rel)
+            keys = None
+            if shared_refs:
+                # a referential attribute set shared with an earlier association of the same class (same key types)
+                def ktypes(cn, attrs_):
+                    return [t for n in attrs_ for an, t in cls(cn)['attrs'] if an == n]
+                cands = [(prev, t2) for prev in assocs if prev['shape'] == 'simple' for t2 in names
+                         if t2 not in (prev['src'], prev['tgt']) and ktypes(prev['src'], prev['src_keys']) == ktypes(t2, ident(t2))]
+                if cands and draw(st.integers(0, 2)) > 0:
+                    prev, tgt = draw(st.sampled_from(cands))
+                    src = prev['src']
+                    keys = list(prev['src_keys'])
+            if keys is None:
+                keys = add_refs(src, tgt, 'r%d' % rel)
             assocs.append({'rel': rel, 'shape': 'simple', 'src': src, 'src_keys': keys,
                            'src_many': draw(st.booleans()), 'src_cond': draw(st.booleans()), 'src_phrase': '',
                            'tgt': tgt, 'tgt_keys': list(ident(tgt)), 'tgt_many': False,
@@ -157,6 +169,26 @@ def schemas(draw, min_classes=2, max_classes=4, max_assocs=4, shapes=('simple', 
         assocs.append({'rel': rel, 'shape': 'simple', 'src': src, 'src_keys': keys, 'src_many': True,
                        'src_cond': True, 'src_phrase': '', 'tgt': tgt, 'tgt_keys': list(ident(tgt)),
                        'tgt_many': False, 'tgt_cond': True, 'tgt_phrase': ''})
+    simple = [a for a in assocs if a['shape'] == 'simple']
+    if shared_refs and simple and spare and draw(st.booleans()):
+        # a second association formalised by the SAME referential attributes, referring to another class whose
+        # identifier has the same types but (typically) other attribute names
+        prev = draw(st.sampled_from(simple))
+        tn = spare.pop(0)
+        types_ = [t for n in prev['src_keys'] for an, t in cls(prev['src'])['attrs'] if an == n]
+        tattrs = [['Ident%d' % k if draw(st.booleans()) else prev['tgt_keys'][k], t] for k, t in enumerate(types_)]
+        classes.append({'name': tn, 'attrs': [list(x) for x in tattrs]})
+        uniques.append({'cls': tn, 'name': 'I1', 'attrs': [x[0] for x in tattrs]})
+        rel += 1
+        assocs.append({'rel': rel, 'shape': 'simple', 'src': prev['src'], 'src_keys': list(prev['src_keys']),
+                       'src_many': draw(st.booleans()), 'src_cond': draw(st.booleans()), 'src_phrase': '',
+                       'tgt': tn, 'tgt_keys': [x[0] for x in tattrs], 'tgt_many': False,
+                       'tgt_cond': draw(st.booleans()), 'tgt_phrase': ''})
+    for a in assocs:
+        if len(a['src_keys']) > 1 and draw(st.booleans()):
+            order = draw(st.permutations(list(range(len(a['src_keys'])))))
+            a['src_keys'] = [a['src_keys'][i] for i in order]
+            a['tgt_keys'] = [a['tgt_keys'][i] for i in order]
     if typecase:
         for c in classes:
             for a in c['attrs']:
